@@ -1,5 +1,5 @@
 use super::field_utils::{parse_name_and_address, parse_party_identifier};
-use super::swift_utils::{parse_bic, parse_swift_chars};
+use super::swift_utils::{ensure_ascii, parse_bic, parse_swift_chars};
 use crate::errors::ParseError;
 use crate::traits::SwiftField;
 use serde::{Deserialize, Serialize};
@@ -76,6 +76,7 @@ impl SwiftField for Field56A {
     where
         Self: Sized,
     {
+        ensure_ascii(input, "Field 56")?;
         let lines: Vec<&str> = input.lines().collect();
 
         if lines.is_empty() {
@@ -130,6 +131,7 @@ impl SwiftField for Field56C {
     where
         Self: Sized,
     {
+        ensure_ascii(input, "Field 56")?;
         if !input.starts_with('/') {
             return Err(ParseError::InvalidFormat {
                 message: "Field 56C must start with '/'".to_string(),
@@ -161,6 +163,7 @@ impl SwiftField for Field56D {
     where
         Self: Sized,
     {
+        ensure_ascii(input, "Field 56")?;
         let lines: Vec<&str> = input.lines().collect();
 
         if lines.is_empty() {
@@ -207,6 +210,7 @@ impl SwiftField for Field56Intermediary {
     where
         Self: Sized,
     {
+        ensure_ascii(input, "Field 56")?;
         // Try Option A (BIC-based) first
         if let Ok(field) = Field56A::parse(input) {
             return Ok(Field56Intermediary::A(field));
@@ -280,6 +284,7 @@ impl SwiftField for Field56IntermediaryAD {
     where
         Self: Sized,
     {
+        ensure_ascii(input, "Field 56")?;
         // Try Option A (BIC-based) first
         if let Ok(field) = Field56A::parse(input) {
             return Ok(Field56IntermediaryAD::A(field));
